@@ -301,9 +301,9 @@ theorem interrupt_acquires_nothing (s s' : State) (p : Nat) (h : fixed.step s (.
   exact h.symm
 
 /-- after any history (interruptions included), a process whose last `sem_wait` was interrupted
-    while another process is inside cannot take the lock: `lock` is not enabled -/
+    while a process is inside cannot take the lock: `lock` is not enabled for anybody -/
 theorem no_entry_after_interrupt (es : List Event) (s : State) (h : fixed.run fixed.init es = some s)
-    (p q : Nat) (hq : holds s q) (hpq : p ≠ q) : fixed.step s (.lock p) = none := by
+    (p q : Nat) (hq : holds s q) : fixed.step s (.lock p) = none := by
   have hc := (count_plus_holders_le_one es s h).2.1 q hq
   simp only [fixed, stepFixed, stepCommon, hc]
   split <;> simp_all
